@@ -239,6 +239,8 @@ func CheckImports(run *core.Run, prog *load.Program) {
 	for _, cname := range callers {
 		run.Check("G-IMPORT/who-may-register", cname, pos, allowed[cname], cname+" registers an import: only the type walker (for packages a printed type mentions) and Mock (sync, the source package) may, otherwise the import block is not exact")
 	}
+	CheckSearchLive(run, prog)
+	CheckQualifierFinal(run, prog)
 	run.Count("addimport_call_sites", len(callers))
 	run.Floor("G-IMPORT/who-may-register", 2)
 }
@@ -583,4 +585,150 @@ func sliceOfStripped(info *types.Info, fd *ast.FuncDecl, sv types.Object) bool {
 		return true
 	})
 	return okAll && n > 0
+}
+
+// CheckQualifierFinal: AddImport can re-alias an import that is already
+// registered (conflict resolution renames both partners), and AddVar can
+// register imports. So a qualifier read into a string (the source-package
+// qualifier of the self-check line) is only final once nothing can be
+// registered any more: no registration may be reachable after that read.
+func CheckQualifierFinal(run *core.Run, prog *load.Program) {
+	f, _, info := moqFunc(prog, load.PkgMoq, "Mocker.Mock")
+	if f == nil {
+		run.Undecided("G-MOCK/qualifier-final", "role", "pkg/moq/moq.go", "(*Mocker).Mock not found")
+		return
+	}
+	registers := func(s cfgx.Site) bool {
+		if s.Callee == nil || !prog.IsMoqPkg(s.Callee.Pkg()) {
+			return false
+		}
+		switch load.FuncName(s.Callee) {
+		case "Registry.AddImport", "MethodScope.AddVar", "Mocker.methodData", "Mocker.typeParams":
+			return true
+		}
+		return false
+	}
+	n := 0
+	for _, s := range f.Sites() {
+		if s.Callee == nil || load.FuncName(s.Callee) != "Package.Qualifier" {
+			continue
+		}
+		n++
+		b, i := s.After()
+		r := f.Explore(b, i, cfgx.Cuts{})
+		var later []string
+		for _, c := range r.Calls {
+			if registers(c) {
+				later = append(later, load.FuncName(c.Callee)+"@"+prog.Pos(c.Call.Pos()))
+			}
+		}
+		run.Check("G-MOCK/qualifier-final", "Mock:"+types.ExprString(s.Call), prog.Pos(s.Call.Pos()), len(later) == 0, fmt.Sprintf("the qualifier %s is copied into a string while imports can still be registered afterwards (%v): a later registration can give this import a new alias (e.g. a source package named like a package added later), and the copied qualifier then names the wrong package", types.ExprString(s.Call), later))
+	}
+	_ = info
+	run.Check("G-MOCK/qualifier-final", "Mock:sites", prog.Pos(f.Decl.Pos()), n >= 1, "Mock no longer reads the source import's qualifier")
+}
+
+// CheckSearchLive: the qualifier search consults the live registry — it ranges
+// over the registered imports and compares each one's *current* qualifier —
+// not an index that conflict resolution would have to keep in step.
+func CheckSearchLive(run *core.Run, prog *load.Program) {
+	f, _, info := moqFunc(prog, load.PkgRegistry, "Registry.searchImport")
+	if f == nil {
+		run.Undecided("G-IMPORT/search-live", "role", "internal/registry/registry.go", "searchImport not found")
+		return
+	}
+	ok := false
+	ast.Inspect(f.Decl.Body, func(n ast.Node) bool {
+		rs, isR := n.(*ast.RangeStmt)
+		if !isR {
+			return true
+		}
+		sel, isSel := ast.Unparen(rs.X).(*ast.SelectorExpr)
+		if !isSel || sel.Sel.Name != "imports" {
+			return true
+		}
+		if _, isMap := info.TypeOf(rs.X).Underlying().(*types.Map); !isMap {
+			return true
+		}
+		// the body compares the element's Qualifier() with the parameter
+		ast.Inspect(rs.Body, func(m ast.Node) bool {
+			if be, isB := m.(*ast.BinaryExpr); isB && be.Op == token.EQL {
+				if strings.HasSuffix(types.ExprString(be.X), ".Qualifier()") || strings.HasSuffix(types.ExprString(be.Y), ".Qualifier()") {
+					ok = true
+				}
+			}
+			return true
+		})
+		return true
+	})
+	// and uses no other registry state
+	other := []string{}
+	ast.Inspect(f.Decl.Body, func(n ast.Node) bool {
+		if sel, isSel := n.(*ast.SelectorExpr); isSel {
+			if fld, isF := info.ObjectOf(sel.Sel).(*types.Var); isF && fld.IsField() && fld.Pkg() != nil && fld.Pkg().Path() == load.PkgRegistry && fld.Name() != "imports" && fld.Name() != "Alias" {
+				other = append(other, fld.Name())
+			}
+		}
+		return true
+	})
+	run.Check("G-IMPORT/search-live", "searchImport", prog.Pos(f.Decl.Pos()), ok && len(other) == 0, fmt.Sprintf("searchImport does not (only) range over the registered imports comparing their current Qualifier() (other state used: %v): conflict resolution renames imports after they were registered, so any index of qualifiers goes stale and name/qualifier collisions are missed", other))
+}
+
+// HelperLengthConstants returns the integer constants that functions of
+// moq's template package compare a slice length with (len(x) > k, switch
+// len(x) { case k: }): the explored list lengths must reach beyond them, as a
+// helper may behave differently there.
+func HelperLengthConstants(prog *load.Program) []int {
+	var out []int
+	isLen := func(info *types.Info, e ast.Expr) bool {
+		c, ok := ast.Unparen(e).(*ast.CallExpr)
+		if !ok || len(c.Args) != 1 {
+			return false
+		}
+		id, ok := c.Fun.(*ast.Ident)
+		if !ok || id.Name != "len" {
+			return false
+		}
+		_, isSlice := info.TypeOf(c.Args[0]).Underlying().(*types.Slice)
+		return isSlice
+	}
+	konst := func(info *types.Info, e ast.Expr) (int, bool) {
+		tv := info.Types[e]
+		if tv.Value == nil || tv.Value.Kind() != constant.Int {
+			return 0, false
+		}
+		v, ok := constant.Int64Val(tv.Value)
+		return int(v), ok && v >= 0 && v < 12
+	}
+	funcsOf(prog, func(pkgPath string, info *types.Info, fd *ast.FuncDecl, fn *types.Func) {
+		if pkgPath != load.PkgTemplate {
+			return
+		}
+		ast.Inspect(fd.Body, func(n ast.Node) bool {
+			switch x := n.(type) {
+			case *ast.BinaryExpr:
+				if isLen(info, x.X) {
+					if k, ok := konst(info, x.Y); ok {
+						out = append(out, k)
+					}
+				} else if isLen(info, x.Y) {
+					if k, ok := konst(info, x.X); ok {
+						out = append(out, k)
+					}
+				}
+			case *ast.SwitchStmt:
+				if x.Tag != nil && isLen(info, x.Tag) {
+					for _, cc := range x.Body.List {
+						for _, e := range cc.(*ast.CaseClause).List {
+							if k, ok := konst(info, e); ok {
+								out = append(out, k)
+							}
+						}
+					}
+				}
+			}
+			return true
+		})
+	})
+	return out
 }
